@@ -326,8 +326,8 @@ class YP(object):
             goal_name = to_python(goal_value)
             goal_args = []
         elif isinstance(goal_value, Functor):
-            goal_name = goal._name
-            goal_args = goal._args
+            goal_name = goal_value._name
+            goal_args = goal_value._args
         else:
             # TODO: raise exception
             pass
